@@ -408,7 +408,11 @@ def check(ctx):
     for r in required:
         ctx.ob("R5", f"_connect::starts::{r}", r in started,
                f"GeckoAsyncSpa._connect does not start a consume task for {r} (started: {started})", con.loc)
-    for qual in (f"{BASE}.consume", f"{UNHANDLED}.consume"):
+    # the base consumer's loop by interpretation (C05's consume model): takes only what its handler accepts, one datagram
+    # at a time, yields on every pass, goes on while not flagged for removal and ends once flagged
+    from .c05 import consume_pairing
+    consume_pairing(ctx, repo, "R5", rule_exit="R5")
+    for qual in (f"{UNHANDLED}.consume",):
         f2 = repo.func(qual)
         g2 = cfg_of(f2)
         heads = {h for _, h in g2.back_edges}
